@@ -1,16 +1,382 @@
 package engines
 
 import (
+	"archive/tar"
+	"bytes"
+	"fmt"
 	"io"
+	"io/fs"
+	"os"
+	"sort"
+	"strings"
 
 	"github.com/pojntfx/stfs/pkg/config"
+	"github.com/pojntfx/stfs/pkg/recovery"
+	"github.com/pojntfx/stfs/pkg/zzverif/vsync"
+	"stfsmc/model"
+	"stfsmc/rig"
 )
 
 type configHeader = config.Header
 
 var errEOF = io.EOF
 
-func (c *stepCtx) oracleC04() {}
-func (c *stepCtx) oracleC07() {}
+// divergedFlat (archive level): live index rows vs the flat model (names, kinds, sizes).
+func (c *stepCtx) divergedFlat() (bool, string) {
+	live := map[string]rig.Row{}
+	for _, r := range c.liveRows {
+		if r.Deleted != 1 {
+			live[rig.NormName(r.Name)] = r
+		}
+	}
+	diffs := []string{}
+	for p, n := range c.m.N {
+		r, ok := live[p]
+		if !ok {
+			diffs = append(diffs, p+":missing")
+			continue
+		}
+		if (r.Typeflag == int64(tar.TypeDir)) != n.Dir {
+			diffs = append(diffs, p+":kind")
+		} else if !n.Dir && r.Size != int64(len(n.Data)) {
+			diffs = append(diffs, fmt.Sprintf("%s:size %d vs %d", p, r.Size, len(n.Data)))
+		}
+	}
+	for p := range live {
+		if _, ok := c.m.N[p]; !ok {
+			diffs = append(diffs, p+":extra")
+		}
+	}
+	sort.Strings(diffs)
+	return len(diffs) > 0, strings.Join(diffs, ", ")
+}
+
+type bufCloser struct{ bytes.Buffer }
+
+func (b *bufCloser) Close() error { return nil }
+
+// fetchAt runs recovery.Fetch at (record, block) through the stack's read backend.
+func fetchAt(st *rig.Stack, record, block int64) (data []byte, isDir bool, err error) {
+	ro := st.ReadOps
+	reader, err := ro.GetBackend().GetReader()
+	if err != nil {
+		return nil, false, fmt.Errorf("GetReader: %w", err)
+	}
+	defer ro.GetBackend().CloseReader()
+	buf := &bufCloser{}
+	err = recovery.Fetch(reader, ro.GetBackend().MagneticTapeIO, ro.GetPipes(), ro.GetCrypto(),
+		func(path string, mode fs.FileMode) (io.WriteCloser, error) { return buf, nil },
+		func(path string, mode fs.FileMode) error { isDir = true; return nil },
+		int(record), int(block), "x", false, nil)
+	return buf.Bytes(), isDir, err
+}
+
+// oracleC04: index positions designate the right records.
+func (c *stepCtx) oracleC04() {
+	rs := int64(c.st.Cfg.RecordSize)
+	starts := map[int64]int{}
+	for i, r := range c.scan.Recs {
+		starts[r.Off] = i
+	}
+	plain := c.st.Cfg.Compression == "" && c.st.Cfg.Encryption == "" && c.st.Cfg.Signature == ""
+	for _, row := range c.liveRows {
+		if row.Deleted == 1 {
+			continue
+		}
+		p := rig.NormName(row.Name)
+		if row.Linkname != "" {
+			continue // symlink rows are outside the modelled alphabets
+		}
+		off := (row.Record*rs + row.Block) * 512
+		if row.Block >= rs || row.Block < 0 {
+			c.viol("C04", "C04|block>=recordsize|"+c.shape, fmt.Sprintf("history: %s\n%s: block %d with record size %d", c.hist(), p, row.Block, rs))
+		}
+		if row.LastBlock >= rs || row.LastBlock < 0 {
+			c.viol("C04", "C04|lastknownblock>=recordsize|"+c.shape, fmt.Sprintf("history: %s\n%s: lastknownblock %d with record size %d", c.hist(), p, row.LastBlock, rs))
+		}
+		if row.LastRecord*rs+row.LastBlock < row.Record*rs+row.Block {
+			c.viol("C04", "C04|lastknown-before-content|"+c.shape, fmt.Sprintf("history: %s\n%s: last known (%d,%d) is before content position (%d,%d)", c.hist(), p, row.LastRecord, row.LastBlock, row.Record, row.Block))
+		}
+		ri, ok := starts[off]
+		if !ok {
+			c.viol("C04", "C04|position-not-a-record-start|"+c.shape, fmt.Sprintf("history: %s\n%s: position (%d,%d) = byte %d is not the start of a record (record starts: %v)", c.hist(), p, row.Record, row.Block, off, recStarts(c.scan)))
+			continue
+		}
+		if lo := (row.LastRecord*rs + row.LastBlock) * 512; true {
+			if _, ok := starts[lo]; !ok {
+				c.viol("C04", "C04|lastknown-not-a-record-start|"+c.shape, fmt.Sprintf("history: %s\n%s: last known position (%d,%d) = byte %d is not the start of a record", c.hist(), p, row.LastRecord, row.LastBlock, lo))
+			}
+		}
+		n, inModel := c.m.N[p]
+		rec := c.scan.Recs[ri]
+		if plain {
+			// the record must be a content-carrying one (create, or update that replaces content)
+			act := rec.Pax["STFS.Action"]
+			carrier := act == "" || act == "CREATE" || (act == "UPDATE" && rec.Pax["STFS.ReplacesContent"] == "true" && rec.Pax["STFS.ReplacesName"] == "")
+			if !carrier {
+				c.viol("C04", "C04|position-at-non-content-record|"+c.shape+"|action="+act, fmt.Sprintf("history: %s\n%s: position (%d,%d) designates a %s record (pax %v) which does not carry the entry's content", c.hist(), p, row.Record, row.Block, act, rec.Pax))
+			}
+		}
+		if !inModel {
+			continue
+		}
+		data, isDir, err := fetchAt(c.st, row.Record, row.Block)
+		vsync.Quiesce()
+		if err != nil {
+			c.viol("C04", "C04|fetch-error|"+c.shape+"|"+kindOf(c.m, p)+"|"+NormErr(err), fmt.Sprintf("history: %s\n%s: Fetch at (%d,%d) failed: %v", c.hist(), p, row.Record, row.Block, err))
+			continue
+		}
+		if n.Dir != isDir {
+			c.viol("C04", "C04|fetch-kind|"+c.shape, fmt.Sprintf("history: %s\n%s: Fetch at (%d,%d) dir=%v, reference dir=%v", c.hist(), p, row.Record, row.Block, isDir, n.Dir))
+		} else if !n.Dir && !bytes.Equal(data, n.Data) {
+			c.viol("C04", "C04|fetch-content|"+c.shape, fmt.Sprintf("history: %s\n%s: Fetch at (%d,%d) returned %s, current content is %s", c.hist(), p, row.Record, row.Block, rig.DataKey(data), rig.DataKey(n.Data)))
+		}
+	}
+	// last indexed position = start of the final record on the tape
+	if len(c.scan.Recs) > 0 && c.scan.Complete {
+		lr, lb, err := c.st.MP.GetLastIndexedRecordAndBlock(ctxBG, int(rs))
+		last := c.scan.Recs[len(c.scan.Recs)-1].Off
+		if err != nil {
+			c.viol("C04", "C04|last-indexed-error|"+c.shape, err.Error())
+		} else if (lr*rs+lb)*512 != last {
+			c.viol("C04", "C04|last-indexed-position|"+c.shape, fmt.Sprintf("history: %s\nindex says last written position is (%d,%d) = byte %d, final record on the tape starts at %d", c.hist(), lr, lb, (lr*rs+lb)*512, last))
+		}
+		// Query(0,0) reports exactly the scanner's positions
+		ro := c.st.ReadOps
+		reader, err := ro.GetBackend().GetReader()
+		if err == nil {
+			got := []int64{}
+			_, qerr := recovery.Query(reader, ro.GetBackend().MagneticTapeIO, ro.GetPipes(), ro.GetCrypto(), 0, 0, func(h *config.Header) {
+				got = append(got, (h.Record*rs+h.Block)*512)
+			})
+			_ = ro.GetBackend().CloseReader()
+			vsync.Quiesce()
+			want := recStarts(c.scan)
+			if qerr != nil {
+				c.viol("C04", "C04|query-error|"+c.shape+"|"+NormErr(qerr), fmt.Sprintf("history: %s\nQuery(0,0) failed: %v", c.hist(), qerr))
+			} else if fmt.Sprint(got) != fmt.Sprint(want) {
+				c.viol("C04", "C04|query-positions|"+c.shape, fmt.Sprintf("history: %s\nQuery(0,0) reports positions %v, the block scanner finds records at %v", c.hist(), got, want))
+			}
+		}
+	}
+}
+
+func recStarts(s rig.ScanResult) []int64 {
+	out := []int64{}
+	for _, r := range s.Recs {
+		out = append(out, r.Off)
+	}
+	return out
+}
+
+// oracleC07: replaying the whole tape into an index that reflects a prefix (or all) of it converges.
+func (c *stepCtx) oracleC07() {
+	n := len(c.scan.Recs)
+	if !c.scan.Complete {
+		return
+	}
+	// reference: from-scratch rebuild
+	ref, ierr, herr := Rebuild(c.env, c.st.Cfg, c.st.Drive)
+	if herr != nil || ierr != nil {
+		return // C01's business
+	}
+	refTree := rig.Walk(ref.FS, "/")
+	vsync.Quiesce()
+	ref.Close()
+	js := []int{0, n - 1, n}
+	if c.job.AllJ {
+		js = js[:0]
+		for j := 0; j <= n; j++ {
+			js = append(js, j)
+		}
+	}
+	js = uniqInts(js)
+	full := c.postTape
+	roleOf := func(p string) string { return role(p, c.op) }
+	kinds := recKinds(c.scan)
+	for _, j := range js {
+		if j < 0 {
+			continue
+		}
+		var st *rig.Stack
+		var err error
+		jname := fmt.Sprint(j)
+		if j == n {
+			jname = "live"
+			st, err = Reopen(c.env, c.st.Cfg, c.st)
+			if err != nil {
+				continue
+			}
+		} else {
+			dir := c.env.TempDir()
+			cut := int64(0)
+			if j > 0 {
+				cut = c.scan.Recs[j-1].End
+			}
+			if err := os.WriteFile(dir+"/drive.tar", full[:cut], 0o600); err != nil {
+				continue
+			}
+			st, err = rig.NewStack(dir, c.st.Cfg, c.env.Keys)
+			if err != nil {
+				continue
+			}
+			if j > 0 {
+				if err := IndexInto(st, true); err != nil {
+					st.Close()
+					continue // prefix rebuild failing is C01/C06's business
+				}
+			}
+			if err := os.WriteFile(dir+"/drive.tar", full, 0o600); err != nil {
+				st.Close()
+				continue
+			}
+		}
+		// what the remaining records are, for the class key
+		rest := "none"
+		if j < n {
+			rest = strings.Join(uniqSorted(append([]string{}, kinds[j:]...)), "+")
+		}
+		done := strings.Join(uniqSorted(append([]string{}, kinds[:min(j, n)]...)), "+")
+		_ = done
+		e1 := IndexInto(st, false)
+		vsync.Quiesce()
+		if e1 != nil {
+			c.viol("C07", fmt.Sprintf("C07|replay-error|pass=1|j=%s|tape-has=%s|%s", jclass(j, n), strings.Join(uniqSorted(append([]string{}, kinds...)), "+"), NormErr(e1)),
+				fmt.Sprintf("history: %s\nindex of the first %s of %d records; replaying the whole tape into it failed: %v", c.hist(), jname, n, e1))
+			st.Close()
+			continue
+		}
+		_ = rest
+		t1 := rig.Walk(st.FS, "/")
+		vsync.Quiesce()
+		if shape, detail := diffTrees(t1, refTree, true, roleOf); len(shape) > 0 {
+			c.viol("C07", fmt.Sprintf("C07|diverges-from-rebuild|j=%s|%s", jclass(j, n), strings.Join(shape, ",")),
+				fmt.Sprintf("history: %s\nindex of the first %s of %d records + replay of the whole tape vs from-scratch rebuild:\n  %s", c.hist(), jname, n, strings.Join(detail, "\n  ")))
+		}
+		rows1, _ := rig.DumpIndex(st.Index)
+		e2 := IndexInto(st, false)
+		vsync.Quiesce()
+		if e2 != nil {
+			c.viol("C07", fmt.Sprintf("C07|replay-error|pass=2|j=%s|%s", jclass(j, n), NormErr(e2)), fmt.Sprintf("history: %s\nsecond replay failed: %v", c.hist(), e2))
+			st.Close()
+			continue
+		}
+		t2 := rig.Walk(st.FS, "/")
+		vsync.Quiesce()
+		rows2, _ := rig.DumpIndex(st.Index)
+		if shape, detail := diffTrees(t2, t1, true, roleOf); len(shape) > 0 {
+			c.viol("C07", fmt.Sprintf("C07|second-pass-changes-tree|j=%s|%s", jclass(j, n), strings.Join(shape, ",")),
+				fmt.Sprintf("history: %s\nsecond replay changed the tree:\n  %s", c.hist(), strings.Join(detail, "\n  ")))
+		} else if fmt.Sprint(rows1) != fmt.Sprint(rows2) {
+			c.viol("C07", fmt.Sprintf("C07|second-pass-changes-rows|j=%s", jclass(j, n)), fmt.Sprintf("history: %s\nsecond replay changed raw index rows:\n  %v\n  %v", c.hist(), rows1, rows2))
+		}
+		st.Close()
+	}
+}
+
+func jclass(j, n int) string {
+	switch {
+	case j == n:
+		return "live"
+	case j == 0:
+		return "0"
+	default:
+		return "prefix"
+	}
+}
+
+func recKinds(s rig.ScanResult) []string {
+	out := []string{}
+	for _, r := range s.Recs {
+		act := r.Pax["STFS.Action"]
+		if act == "" {
+			act = "CREATE"
+		}
+		if r.Pax["STFS.ReplacesName"] != "" {
+			act = "MOVE"
+		}
+		out = append(out, act)
+	}
+	return out
+}
+
 func (c *stepCtx) oracleC09() {}
-func (c *stepCtx) oracleC12() {}
+
+// oracleC12: recursive remove / rename touch exactly the named subtree (live tree and rebuilt tree vs reference).
+func (c *stepCtx) oracleC12() {
+	if c.op.K != "removeall" && c.op.K != "remove" && c.op.K != "rename" {
+		return
+	}
+	roleOf := func(p string) string { return role(p, c.op) }
+	like := func(detail []string) string {
+		// does any collateral entry match the SQL LIKE pattern of the named directory without being inside it?
+		P := model.Clean(c.op.P)
+		for _, d := range detail {
+			p := d[:strings.Index(d, ":")]
+			if !strings.HasPrefix(p, P+"/") && p != P && likeMatch(P+"/%", p) {
+				return "like-match=true"
+			}
+		}
+		return "like-match=false"
+	}
+	implOK, modelOK := c.err == nil, c.reason == ""
+	if implOK != modelOK {
+		mv := "ok"
+		if !modelOK {
+			mv = "fail:" + c.reason
+		}
+		c.viol("C12", fmt.Sprintf("C12|outcome|%s|model=%s|impl=%s", c.shape, mv, errClass(c.err)),
+			fmt.Sprintf("history: %s\nthe reference says %s, the implementation returned %v", c.hist(), mv, c.err))
+	}
+	if shape, detail := diffTrees(c.postTree, modelTree(c.m), false, roleOf); len(shape) > 0 {
+		c.viol("C12", fmt.Sprintf("C12|state|%s|%s|%s", c.shape, strings.Join(shape, ","), like(detail)),
+			fmt.Sprintf("history: %s\nimplementation returned %v, reference %q\ndifferences (implementation vs reference):\n  %s", c.hist(), c.err, c.reason, strings.Join(detail, "\n  ")))
+		return
+	}
+	if c.rebuilt != nil {
+		t := rig.Walk(c.rebuilt.FS, "/")
+		vsync.Quiesce()
+		if shape, detail := diffTrees(t, modelTree(c.m), false, roleOf); len(shape) > 0 {
+			c.viol("C12", fmt.Sprintf("C12|rebuilt-state|%s|%s|%s", c.shape, strings.Join(shape, ","), like(detail)),
+				fmt.Sprintf("history: %s\nrebuilt-from-tape tree vs reference:\n  %s", c.hist(), strings.Join(detail, "\n  ")))
+		}
+	}
+}
+
+// likeMatch implements SQL LIKE with % and _ (case-insensitive for ASCII, like SQLite's default).
+func likeMatch(pat, s string) bool {
+	pr, sr := []rune(strings.ToLower(pat)), []rune(strings.ToLower(s))
+	var rec func(i, j int) bool
+	rec = func(i, j int) bool {
+		for i < len(pr) {
+			switch pr[i] {
+			case '%':
+				for k := j; k <= len(sr); k++ {
+					if rec(i+1, k) {
+						return true
+					}
+				}
+				return false
+			case '_':
+				if j >= len(sr) {
+					return false
+				}
+			default:
+				if j >= len(sr) || sr[j] != pr[i] {
+					return false
+				}
+			}
+			i++
+			j++
+		}
+		return j == len(sr)
+	}
+	return rec(0, 0)
+}
+
+func min(a, b int) int {
+	if a < b {
+		return a
+	}
+	return b
+}
